@@ -14,6 +14,10 @@ from .values import (U, NONE_U, Opq, NT, make_nt_class, SObj, SArr, SMap, SSet, 
                      kind_of_scalar, kind_sort, kind_leaves, fresh_int, fresh_real, fresh_bool, fresh_U, fresh_name)
 
 
+APPLY = z3.Function('apply!U', U, U, U)
+EMPTY_DICT_U = z3.Const('emptydict!U', U)
+
+
 class Unsupported(Exception):
     """Construct outside the verified subset: obligations cannot be generated (not a violation)."""
 
@@ -602,6 +606,8 @@ class Interp:
             for x, k in zip(v, kind[1]):
                 out.extend(self.flat_elem(x, k))
             return out
+        if kind == 'U' and isinstance(v, dict) and not v:
+            return [EMPTY_DICT_U]      # a fresh empty dict stored into an opaque-valued container
         if kind == 'U' and not (isinstance(v, Opq) or v is None or (is_z3(v) and v.sort() == U)):
             raise Unsupported(f'cannot store {type(v).__name__} in an opaque-valued container')
         return [to_z3(self._num(v) if kind != 'bool' else v, kind_sort(kind))]
@@ -1335,6 +1341,15 @@ class Interp:
 
     def call_opaque(self, f, args, kwargs):
         """Calling an uninterpreted callable: logged in the ghost call log, result is a fresh opaque value."""
+        genv = self.ghost.get('__env__', {})
+        if 'calls' in genv:
+            # symbolic ghost call log: (callee, extra-kwargs pack); the result is apply(callee, pack)
+            packs = [v for k, v in kwargs.items() if k.startswith('**')]
+            pack = packs[-1] if packs else Opq(EMPTY_DICT_U)
+            log = genv['calls']
+            log.leaves = [z3.Store(l, to_z3(log.n), e) for l, e in zip(log.leaves, [f.t, pack.t])]
+            log.n = self.binop(ast.Add(), log.n, 1)
+            return Opq(APPLY(f.t, pack.t))
         res = Opq(base='res')
         self.ghost.setdefault('calls', []).append((f, tuple(args), dict(kwargs), res))
         return res
